@@ -28,6 +28,12 @@ def case_variants(s, r, limit):
             yield "".join(c.lower() if r.random() < 0.5 else c.upper() for c in s)
 
 
+# the Windows control names as the rustdoc of Signal::from_windows_str lists them (used when the table cannot be translated)
+DOC_WINDOWS = {"CTRL-CLOSE": "Hangup", "CTRL+CLOSE": "Hangup", "CLOSE": "Hangup", "CTRL-BREAK": "Terminate", "CTRL+BREAK": "Terminate",
+               "BREAK": "Terminate", "CTRL-C": "Interrupt", "CTRL+C": "Interrupt", "C": "Interrupt", "STOP": "ForceStop",
+               "FORCE-STOP": "ForceStop", "KILL": "ForceStop", "SIGKILL": "ForceStop"}
+
+
 class C19(Prop):
     pid = "C19"
     generators = ["signals"]
@@ -41,7 +47,7 @@ class C19(Prop):
 
     def strings(self, r, tier):
         t = translate.TABLES.get("signals")
-        win = [w for w, _ in t["windows"]] if t else ["STOP", "KILL", "C", "BREAK", "CLOSE"]
+        win = [w for w, _ in t["windows"]] if t else sorted(DOC_WINDOWS)
         lim = 4 if tier == "quick" else 7
         out = []
         for i, nm in enumerate(NIX):
@@ -134,9 +140,11 @@ class C19(Prop):
             if not (b and b.startswith("Ok") and b.endswith(want)) or b != n or (nm not in win and a != b):
                 c.failing.append({"case": {"name": nm, "number": i + 1}, "impl": {"short": a, "sig": b, "num": n},
                                   "clause": "C19_spellings_agree"})
-        wtab = dict((translate.TABLES.get("signals") or {}).get("windows") or [])
-        for w in win:
-            got = parse.get(w, "")
+        wtab = dict((translate.TABLES.get("signals") or {}).get("windows") or []) or DOC_WINDOWS
+        for w in sorted(set(win) | set(wtab)):
+            if w not in parse:
+                continue
+            got = parse[w]
             want_sig = wtab.get(w)
             if not got.startswith("Ok") or (want_sig and not got.startswith("Ok:" + want_sig + " ")):
                 c.failing.append({"case": {"windows_name": w}, "impl": got, "expected": want_sig,
